@@ -458,6 +458,8 @@ def run(chk):
                 'domain when the Python twin of wf_layout_tree accepts it (the twin is compared with the extracted Coq predicate '
                 'on every case) and non-trivial when the tree has at least two nodes or an alignment.')
     chk.require_theorems('Properties.C02', THEOREMS)
+    from harness import e2e_theorems
+    chk.require_theorems('Properties.E2E', e2e_theorems.THEOREMS_C02)   # end-to-end composition (string level)
     common.use_repo()
     deep_safe()
     quick = chk.tier == 'quick'
